@@ -283,6 +283,7 @@ package k8s
 //@   ensures [C01,C03,C05] wf: wfCS(res0) && fresh(res0) && freshSep(res0) && allKept()
 //@   ensures [C01,C03,C14] pts: res1 == nil ==> (forall q v1.Protocol, n int :: {iset(res0.AllowedProtocols[q].Ports)[n]}
 //@         pts(res0, q, n) == portMatch(rulePorts, dst, q, n))
+//@   ensures [C03] explicit: len(rulePorts) != 0 ==> !res0.AllowAll
 //@   ensures [C01] named: res1 == nil ==> (forall q v1.Protocol, s string :: {s in res0.AllowedProtocols[q].NamedPorts} !npts(res0, q, s))
 //@   loop 1:
 //@     invariant idx: 0 - 1 <= rangeindex && rangeindex < len(rulePorts) + 1 && len(rulePorts) > 0
@@ -334,3 +335,14 @@ package k8s
 //@     invariant wf: wfCS(res) && fresh(res) && !res.AllowAll && freshSep(res) && allKept()
 //@     invariant pts: forall q v1.Protocol, n int :: {iset(res.AllowedProtocols[q].Ports)[n]} ptsP(res, q, n) ==
 //@         (q == "TCP" && (exists k int :: {pod.Ports[k]} 0 <= k && k <= rangeindex && cpProto(pod.Ports[k]) == "TCP" && pod.Ports[k].ContainerPort == n))
+
+// ---------------------------------------------------------------------------------------------
+// C03 at rule level: the eval-side test agrees with membership in the list-side set (both proved against portMatch)
+// ---------------------------------------------------------------------------------------------
+
+//@ lemma [C03] ruleAgree(c *common.ConnectionSet, rps []netv1.NetworkPolicyPort, dst Peer, protocol string, port string)
+//@   reveal wfCS
+//@   requires wfCS(c) && !c.AllowAll && len(rps) != 0 && 1 <= atoiVal(port) && atoiVal(port) <= 65535
+//@   requires forall q v1.Protocol :: {foldEq(q, protocol)} {foldEq(protocol, q)} pts(c, q, atoiVal(port)) == portMatch(rps, dst, q, atoiVal(port))
+//@   ensures agree: (c.AllowAll || (exists q v1.Protocol :: q in c.AllowedProtocols && foldEq(protocol, q) && iset(c.AllowedProtocols[q].Ports)[atoiVal(port)]))
+//@         == (exists q string :: isProto(q) && foldEq(q, protocol) && portMatch(rps, dst, q, atoiVal(port)))
